@@ -649,7 +649,10 @@ func init() {
 		} else {
 			enumV3EnvProduct(r, P, nil, 37)
 		}
-		enumV2Temporal(r, P, nil, []int{1, 2}, []map[string]string{{}, {"CDP": "LM", "TD": "M", "CR": "H", "IR": "L", "AR": "ND"}, {"CDP": "N", "TD": "N", "CR": "L", "IR": "L", "AR": "L"}, {"CDP": "H", "TD": "H", "CR": "M", "IR": "ND", "AR": "M"}})
+		enumV2Temporal(r, P, nil, []int{1, 2}, []map[string]string{{}, {"CDP": "LM", "TD": "M", "CR": "H", "IR": "L", "AR": "ND"}, {"CDP": "N", "TD": "N", "CR": "L", "IR": "L", "AR": "L"}, {"CDP": "H", "TD": "H", "CR": "M", "IR": "ND", "AR": "M"},
+			// requirements that leave the impact as it is (round 6, C14-B-r6: a memo of the base equation
+			// keyed by the impact in hundredths, shared by Base.Score and the environmental equation)
+			{"CDP": "ND", "TD": "ND", "CR": "ND", "IR": "ND", "AR": "ND"}, {"CDP": "N", "TD": "H", "CR": "M", "IR": "M", "AR": "M"}, {"CDP": "N", "TD": "ND", "CR": "H", "IR": "H", "AR": "H"}})
 		if thorough {
 			dpathSliceV2(r, P, nil, func(gi int) bool { return gi%4 == 0 })
 		} else {
